@@ -108,7 +108,7 @@ func runC02(c *Ctx) {
 			return true
 		})
 		if nstores < 5 {
-			c.Bad("R2.1", "stores of the rewriter", rp.Pos(), fmt.Sprintf("only %d stores into the packet found", nstores))
+			c.Bad("R2.1", "stores of the rewriter", rp.Pos(), "%s", fmt.Sprintf("only %d stores into the packet found", nstores))
 		}
 	}
 
